@@ -2,6 +2,7 @@ package c14
 
 import (
 	"bytes"
+	"encoding/binary"
 	"encoding/json"
 	"fmt"
 	"math/big"
@@ -381,6 +382,32 @@ func cfgSplit(update string) (family string, path []string, value string, ok boo
 	return ks[0], ks[1:], parts[1], true
 }
 
+// currentOption returns the option record of a family that is in force in a view (the version named by
+// the family's last-update-height record).
+func currentOption(v *view, family string) []byte {
+	f := cfgFamilies[family]
+	luh := v.gov["g_"+f.luh+"_defaultOptions"]
+	if len(luh) != 8 {
+		return nil
+	}
+	h := int64(binary.LittleEndian.Uint64(luh))
+	return v.gov[versionedKey(h, f.rec)]
+}
+
+// minFeePrice is the smallest gas price the application admits under the fee option of a view.
+func minFeePrice(v *view) *big.Int {
+	var o struct {
+		FeeCurrency struct {
+			Decimal int64 `json:"decimal"`
+		} `json:"feeCurrency"`
+		MinFeeDecimal int64 `json:"minFeeDecimal"`
+	}
+	if json.Unmarshal(currentOption(v, "feeOption"), &o) != nil || o.FeeCurrency.Decimal < o.MinFeeDecimal {
+		return big.NewInt(0)
+	}
+	return new(big.Int).Exp(big.NewInt(10), big.NewInt(o.FeeCurrency.Decimal-o.MinFeeDecimal), nil)
+}
+
 func versionedKey(h int64, name string) string { return "g_" + string(rune(h)) + "_" + name }
 
 // ---- monitor ----
@@ -393,6 +420,7 @@ type Monitor struct {
 
 	// statistics
 	Measured, Unmeasured, Noise int
+	FinalMeasured               int
 	RefundsChecked              int
 	RefundDenied                int
 	VotesSeen                   int
@@ -901,12 +929,13 @@ func (m *Monitor) Block(h int64, raw [][]byte, res []sim.TxRes, afterDump map[st
 			for _, p := range finalisedNow {
 				cap.Add(cap, p.total())
 			}
+			m.FinalMeasured += len(finalisedNow)
 			if d.Cmp(cap) > 0 {
 				return viol("distribution", "exceeds-contributed", "h=%d: finalising %d proposal(s) credited %s in total to balances and the fee pool, their contributions were %s", h, len(finalisedNow), d, cap)
 			}
 		}
 	} else if len(finalisedNow) > 0 {
-		m.Unmeasured++
+		m.Unmeasured += len(finalisedNow)
 	}
 
 	// --- refunds: a funder of a cancelled / goal-missed proposal can withdraw exactly what it put in ---
@@ -924,6 +953,9 @@ func (m *Monitor) Block(h int64, raw [][]byte, res []sim.TxRes, afterDump map[st
 		}
 		if touched[s] != 1 || finalProposers[s] {
 			continue
+		}
+		if t.Price.Cmp(minFeePrice(before)) < 0 {
+			continue // a governance update raised the minimal fee above what this transaction offers: it is not admissible at all
 		}
 		si, known := start[t.ID]
 		if !known {
